@@ -326,11 +326,30 @@ fn main() {
         if line.is_empty() {
             continue;
         }
-        let owned: Vec<String> = line.split('\t').map(|s| s.to_string()).collect();
-        let r = panic::catch_unwind(move || {
-            let f: Vec<&str> = owned.iter().map(|s| s.as_str()).collect();
-            run_job(&f)
-        });
+        let mut owned: Vec<String> = line.split('\t').map(|s| s.to_string()).collect();
+        // `bigstack <job...>`: the job runs on a thread with a 2 GiB stack (deeply nested inputs; the dev-profile walker needs ~100 kB per level)
+        let big = owned[0] == "bigstack";
+        if big {
+            owned.remove(0);
+        }
+        let r = if big {
+            std::thread::Builder::new()
+                .stack_size(2usize << 30)
+                .spawn(move || {
+                    panic::catch_unwind(move || {
+                        let f: Vec<&str> = owned.iter().map(|s| s.as_str()).collect();
+                        run_job(&f)
+                    })
+                })
+                .expect("spawn")
+                .join()
+                .unwrap_or_else(|e| Err(e))
+        } else {
+            panic::catch_unwind(move || {
+                let f: Vec<&str> = owned.iter().map(|s| s.as_str()).collect();
+                run_job(&f)
+            })
+        };
         match r {
             Ok(s) => println!("{}\t{}", i, s),
             Err(_) => println!("{}\tPANIC\t{}", i, hex(&LAST_PANIC.lock().unwrap())),
